@@ -132,7 +132,8 @@ def run(ctx: core.Ctx):
     for plan, res in lib:
         nlib += judge_lib(ctx, plan, res)
     # families for default rules outside the TLA+ menu (BatchNormalization fusions with non-default epsilon, new-domain rules)
-    for fam, res in optgen.direction_family(ctx, want_abs=False):
+    fams = optgen.direction_family(ctx, want_abs=False)
+    for fam, res in fams:
         name = fam[0]
         if res is core.HANG or isinstance(res, core.MachineryErrorResult):
             raise core.MachineryError(f"family {name}: {res}")
@@ -152,6 +153,12 @@ def run(ctx: core.Ctx):
                 break
     if not ctx.coverage.get("family_runs_where_a_rule_fired"):
         raise core.MachineryError("vacuity: no rule fired on any family model")
+    # direction B: the recorded executions of the constant folder (hooks in _constant_folding.py) for the derived, lifted
+    # library and family models and for the repository's own optimizer tests, executed by TLC on FoldApply.tla
+    from . import foldtrace
+
+    case_traces = optgen.fold_traces_of(pairs, "derived") + optgen.fold_traces_of(lib, "library") + optgen.fold_traces_of(fams, "family")
+    foldtrace.stage(ctx, foldtrace.dedup(case_traces, 2500 if ctx.quick else 30000, ctx.seed), "C03")
     ctx.set("library_models", len(lib))
     ctx.set("library_runs", nlib)
     ctx.set("distinct_nontrivial", nontriv)
